@@ -55,8 +55,25 @@ stage("inplace", inplace)
 """
 
 
+def corpus(canary_path):
+    """documents that run first on every run: one per hang / leak ever seen or seeded, minimised"""
+    W = '<svg %s viewBox="0 0 100 100">%%s</svg>' % NS
+    return [("corpus", W % b) for b in [
+        '<use xlink:href="#nope"/>',
+        '<g id="a"><use xlink:href="#a"/></g>',
+        '<use id="a" xlink:href="#a"/>',
+        '<use id="a" xlink:href="#b"/><use id="b" xlink:href="#a"/>',
+        '<rect width="9" height="9" opacity="nan"/>',
+        '<rect width="9" height="9" fill-opacity="NaN"/><circle r="3"/>',
+        '<g opacity="nan"><rect width="9" height="9"/><circle r="3"/></g>',
+        '<defs><clipPath id="a" clip-path="url(#b)"><rect width="5" height="5"/></clipPath><clipPath id="b" clip-path="url(#b)"><rect width="5" height="5"/></clipPath></defs><rect width="9" height="9" clip-path="url(#a)"/>',
+        '<defs><linearGradient id="h" xlink:href="#i"/><linearGradient id="i" xlink:href="#h"/></defs><rect width="9" height="9" fill="url(#h)" transform="translate(1 1)"/>',
+    ]] + [("corpus", '<!DOCTYPE svg [<!ENTITY xxe SYSTEM "file://%s">]><svg %s viewBox="0 0 100 100">&xxe;<rect width="5" height="5"/></svg>' % (canary_path, NS)),
+          ("corpus", '<!DOCTYPE svg [<!ENTITY a "aaaaaaaaaa"><!ENTITY b "&a;&a;&a;&a;&a;&a;&a;&a;"><!ENTITY c "&b;&b;&b;&b;&b;&b;&b;&b;">]><svg %s viewBox="0 0 100 100"><desc>&c;</desc><circle r="4"/></svg>' % NS)]
+
+
 def gen_doc(rng, canary_path):
-    k = rng.choice(["use-self", "use-mutual", "use-use", "use-chain", "use-in-clip-cycle", "clip-cycle", "grad-cycle", "dangling", "malformed",
+    k = rng.choice(["use-self", "use-mutual", "use-use", "use-chain", "use-in-clip-cycle", "clip-cycle", "grad-cycle", "dangling", "dangling-use", "nan", "malformed",
                     "expanding", "entities", "benign"])
     body = ""
     defs = ""
@@ -103,6 +120,16 @@ def gen_doc(rng, canary_path):
                            '<rect width="5" height="5" fill="url(#nope)" transform="scale(2)"/>',
                            '<linearGradient id="g" xlink:href="#nope"/><rect width="5" height="5" fill="url(#g)"/>',
                            '<use xlink:href="http://example.org/x.svg#a"/>', '<use/>'])
+    elif k == "dangling-use":
+        body = rng.choice(['<use xlink:href="#nope"/>', '<g><rect width="5" height="5"/><use xlink:href="#gone" x="3"/></g>',
+                           '<rect id="ok" width="4" height="4"/><use xlink:href="#ok"/><use xlink:href="#missing" transform="scale(2)"/>'])
+    elif k == "nan":
+        # float() accepts these spellings: nothing downstream may loop on them
+        v = rng.choice(["nan", "NaN", "nan", "inf", "-inf", "1e999"])
+        body = rng.choice(['<rect width="9" height="9" opacity="%s"/>', '<rect width="9" height="9" fill-opacity="%s"/>',
+                           '<circle r="4" opacity="%s"/><rect width="3" height="3"/>', '<path d="M0,0 L5,0 L5,5 Z" fill-opacity="%s" fill="red"/>',
+                           '<g opacity="%s"><rect width="9" height="9"/><circle r="3"/></g>', '<circle r="%s"/>',
+                           '<rect width="9" height="9" stroke="red" stroke-width="%s"/>', '<rect width="9" height="9" transform="scale(%s)"/>']) % v
     elif k == "malformed":
         body = rng.choice(['<rect width="abc" height="5"/>', '<circle r="1e"/>', '<path d="M0,0 L1"/>', '<g transform="rotate(a)"><rect width="2" height="2"/></g>',
                            '<g opacity="x"><rect width="2" height="2"/><rect width="3" height="3"/></g>', '<rect width="5" height="5" style="fill"/>',
@@ -123,7 +150,7 @@ def gen_doc(rng, canary_path):
             '<!DOCTYPE svg [<!ENTITY hello "<rect width=\'7\' height=\'7\'/>"><!ENTITY xxe SYSTEM "file://%s">]>' % canary_path,
             '<!DOCTYPE svg [<!ENTITY xxe SYSTEM "file://%s"><!ENTITY a "aaaaaaaaaa"><!ENTITY b "&a;&a;&a;&a;&a;&a;&a;&a;"><!ENTITY c "&b;&b;&b;&b;&b;&b;&b;&b;">]>' % canary_path,
         ])
-        body = rng.choice(['<desc>&xxe;</desc><rect width="5" height="5"/>', '<title>&hello;</title><rect width="5" height="5"/>&hello;',
+        body = rng.choice(['&xxe;<rect width="5" height="5"/>', '<g>&xxe;</g><rect width="5" height="5"/>', '<desc>&xxe;</desc><rect width="5" height="5"/>', '<title>&hello;</title><rect width="5" height="5"/>&hello;',
                            '<text>&xxe;</text><circle r="4"/>', '<desc>&c;&c;&c;</desc><circle r="4"/>'])
         doc = doctype + '<svg %s viewBox="0 0 100 100">%s</svg>' % (NS, body)
     return k, doc
@@ -176,8 +203,9 @@ def correspondence(ctx):
     canary_dir = tempfile.mkdtemp(prefix="picosvg-verif-canary-")
     canary = os.path.join(canary_dir, "secret.txt")
     with open(canary, "w") as f:
-        f.write(CANARY)
-    docs = [gen_doc(rng, canary) for _ in range(n)]
+        # markup, so that a parser that expands the entity splices an element into the document
+        f.write('<path id="%s" d="M0,0 L7,0 L7,7 Z"/>' % CANARY)
+    docs = corpus(canary) + [gen_doc(rng, canary) for _ in range(n - 11)]
     with concurrent.futures.ThreadPoolExecutor(max_workers=12) as ex:
         results = list(ex.map(lambda d: run_watchdog(d[1]), docs))
     ctx._results = list(zip(docs, results))
